@@ -32,8 +32,8 @@ def _calls_rec(P, f, depth=3):
     return out
 
 
-def r1_next_wakeup(ctx):
-    ctx.set_rule('C05.R1')
+def r1_next_wakeup(ctx, rule='C05.R1'):
+    ctx.set_rule(rule)
     P = ctx.P
     fnext = ctx.anchor(TQ + '::next')
     if not fnext:
@@ -182,8 +182,8 @@ def r2_ready_wake_agreement(ctx):
                 ctx.check(bool(ok), 'bump-captures-now', "bump's slot predicate compares with the value of SimTime::now()", fb.where(b), [show(c) for c in caps])
 
 
-def r3_wakeup_scheduling(ctx):
-    ctx.set_rule('C05.R3')
+def r3_wakeup_scheduling(ctx, rule='C05.R3'):
+    ctx.set_rule(rule)
     f = ctx.anchor('des::net::module::refs::ModuleRef::deactivate')
     if not f:
         return
@@ -252,8 +252,8 @@ def r4_wake_before_callback(ctx):
             ctx.check(f.dominates(bump[0].b, b) and sets[0].b in f.reach_from(b) and b not in f.reach_from(sets[0].b), 'clear-before-set', 'the clear happens before the driver is installed', f.where(b))
 
 
-def r5_registration(ctx):
-    ctx.set_rule('C05.R5')
+def r5_registration(ctx, rule='C05.R5'):
+    ctx.set_rule(rule)
     P = ctx.P
     fp = ctx.anchor('<%s as std::future::Future>::poll' % SLEEP)
     if not fp:
